@@ -577,4 +577,94 @@ theorem runOOB_length (oob : Bytes) (hist : List Bytes) : (runOOB oob hist).leng
 theorem upsPath_ne_tcp (tcp : Bool) : upsPath tcp ≠ Path.tcp := by
   cases tcp <;> simp [upsPath]
 
+/-! ### Round 5: writers and their pools -/
+
+/-- Every buffer of a fixed-size receive pool has the configured length (the invariant the receive
+paths rely on: `readUDPMsg`, the upstream `readMsg` read into the pooled slice as it is). -/
+def WFW (s : ServerW) : Prop :=
+  ∀ p, p ≠ Path.tcp → ∀ b ∈ s.free (.recv p), b.length = s.cfg.size p
+
+theorem wfw_iff_wf (s : ServerW) : WFW s ↔ WF s.recvView := Iff.rfl
+
+theorem wfw_init (c : Cfg) : WFW (ServerW.init c) := by
+  intro p _ b hb
+  simp [ServerW.init] at hb
+
+theorem recvView_withRecv (s : ServerW) (r : Server) (h : r.cfg = s.cfg) :
+    (s.withRecv r).recvView = r := by
+  cases r
+  simp only [ServerW.recvView, ServerW.withRecv] at *
+  rw [h]
+
+theorem recvW_cfg (s : ServerW) (op : Op) : (recvW s op).1.cfg = s.cfg := rfl
+
+theorem writeW_cfg (w : Wiring) (s : ServerW) (x : Write) : (writeW w s x).1.cfg = s.cfg := by
+  unfold writeW
+  split <;> rfl
+
+theorem stepW_cfg (w : Wiring) (s : ServerW) (e : EvW) : (stepW w s e).cfg = s.cfg := by
+  cases e
+  · exact recvW_cfg _ _
+  · exact writeW_cfg _ _ _
+
+theorem runW_cfg (w : Wiring) (s : ServerW) (evs : List EvW) : (runW w s evs).cfg = s.cfg := by
+  induction evs generalizing s with
+  | nil => rfl
+  | cons e rest ih => simp only [runW]; rw [ih, stepW_cfg]
+
+theorem wfw_recv (s : ServerW) (op : Op) (h : WFW s) : WFW (recvW s op).1 := by
+  rw [wfw_iff_wf]
+  simp only [recvW]
+  rw [recvView_withRecv _ _ (step_cfg _ _)]
+  exact wf_step _ _ h
+
+/-- A write touches no pool but the writer's. -/
+theorem writeW_free_other (w : Wiring) (s : ServerW) (x : Write) (q : PoolId)
+    (hq : w x.path ≠ some q) : (writeW w s x).1.free q = s.free q := by
+  unfold writeW
+  split
+  · rfl
+  · next pool hp =>
+    have : q ≠ pool := by intro h; rw [h] at hq; exact hq hp
+    simp [this]
+
+/-- What a write leaves in the writer's own pool: old buffers, and possibly the written slice. -/
+theorem writeW_free_mem (w : Wiring) (s : ServerW) (x : Write) (q : PoolId) (b : Bytes)
+    (hb : b ∈ (writeW w s x).1.free q) : b ∈ s.free q ∨ w x.path = some q := by
+  by_cases hq : w x.path = some q
+  · exact Or.inr hq
+  · rw [writeW_free_other w s x q hq] at hb; exact Or.inl hb
+
+theorem wfw_write (w : Wiring) (hw : SafeWiring w) (s : ServerW) (x : Write) (h : WFW s) :
+    WFW (writeW w s x).1 := by
+  intro p hp b hb
+  rw [writeW_cfg]
+  rcases writeW_free_mem w s x _ b hb with hb | hq
+  · exact h p hp b hb
+  · exact absurd (hw _ _ hq) hp
+
+theorem wfw_step (w : Wiring) (hw : SafeWiring w) (s : ServerW) (e : EvW) (h : WFW s) :
+    WFW (stepW w s e) := by
+  cases e
+  · exact wfw_recv _ _ h
+  · exact wfw_write w hw _ _ h
+
+theorem wfw_run (w : Wiring) (hw : SafeWiring w) (s : ServerW) (evs : List EvW) (h : WFW s) :
+    WFW (runW w s evs) := by
+  induction evs generalizing s with
+  | nil => exact h
+  | cons e rest ih => exact ih _ (wfw_step w hw s e h)
+
+theorem recvW_outcome (s : ServerW) (op : Op) (h : WFW s) :
+    (recvW s op).2 = spec op.path (s.cfg.size op.path) op.wire :=
+  step_outcome s.recvView op h
+
+theorem writerSlice_eq (p : Path) (buf msg : Bytes) :
+    writerSlice p buf msg = if p = .udp then msg else be16Bytes msg.length ++ msg := by
+  cases p <;> simp [writerSlice, packUDP, packBuffer_take, packWithPrefix_written]
+
+theorem realWiring_safe : SafeWiring realWiring := by
+  intro p q h
+  cases p <;> simp [realWiring] at h
+
 end Agd.Buffers
